@@ -187,10 +187,10 @@ def back_ann(w, o):
     if origin is type:
         return ["typeOf", back_ann(w, typing.get_args(o)[0])]
     if origin is not None:
-        return ["gen", w.classes.index(origin), [back_ann(w, x) for x in typing.get_args(o)]]
+        return ["gen", cls_index(w, origin), [back_ann(w, x) for x in typing.get_args(o)]]
     if o is type(None):
         return ["cls", C_NONE]
-    return ["cls", w.classes.index(o)]
+    return ["cls", cls_index(w, o)]
 
 
 def back(w, t, handlers):
@@ -203,7 +203,7 @@ def back(w, t, handlers):
     if isinstance(t, ProductType):
         return ["prod", [back(w, x, handlers) for x in t.parameters]]
     if isinstance(t, ParametrizedDependentType):
-        return ["fast", handlers[type(t).__name__], [back(w, x, handlers) for x in t.parameters], w.classes.index(t.bound)]
+        return ["fast", handlers[type(t).__name__], [back(w, x, handlers) for x in t.parameters], cls_index(w, t.bound)]
     if isinstance(t, type(Union[int, str])) and type(getattr(t, "_handler", None)).__name__ == "Union":
         return ["union", [back(w, x, handlers) for x in t._handler.types]]
     if typing.get_origin(t) is type:
@@ -213,6 +213,15 @@ def back(w, t, handlers):
     if isinstance(t, type) and t in w.classes:
         return ["cls", w.classes.index(t)]
     return ["unknown", repr(t)[:60]]
+
+
+def cls_index(w, c):
+    """index of a class of this world; a class that does not belong to it (what a stale cache of the library may
+    hand back) is reported as such instead of raising"""
+    try:
+        return w.classes.index(c)
+    except ValueError:
+        return ["foreign", getattr(c, "__name__", repr(c))[:40]]
 
 
 def lit_index(v):
@@ -335,7 +344,7 @@ def back_ty(w, o):
         return ["cls", 0]
     origin = typing.get_origin(o)
     if origin is not None:
-        return ["gen", w.classes.index(origin), [back_ty(w, x) for x in typing.get_args(o)]]
+        return ["gen", cls_index(w, origin), [back_ty(w, x) for x in typing.get_args(o)]]
     if o is type(None):
         return ["cls", C_NONE]
     return ["cls", w.classes.index(o)] if o in w.classes else ["other"]
